@@ -169,15 +169,15 @@ func famWriteLoop(g *genctx, v int) *scen {
 	switch v {
 	case 0:
 		body = fmt.Sprintf("    while i < args.n {\n        args.dst.write_u8?(a: (i & 0xFF) as base.u8)\n        i ~mod+= 1\n    }\n    this.%s = i", st)
-	case 1: // wider writes
-		body = fmt.Sprintf("    while i < args.n {\n        args.dst.write_u16le?(a: (i & 0xFFFF) as base.u16)\n        args.dst.write_u32be?(a: i ~mod* 0x01010101)\n        i ~mod+= 1\n    }\n    this.%s = i", st)
+	case 1: // several writes per round, a local computed between them (multi-byte write_uNN? is not implemented by wuffs-c)
+		body = fmt.Sprintf("    while i < args.n {\n        args.dst.write_u8?(a: (i & 0xFF) as base.u8)\n        j = i ~mod* 0x01010101\n        args.dst.write_u8?(a: ((j >> 8) & 0xFF) as base.u8)\n        args.dst.write_u8?(a: ((j >> 24) & 0xFF) as base.u8)\n        i ~mod+= 1\n    }\n    this.%s = i", st)
 	case 2: // fast write guarded by length
 		body = fmt.Sprintf("    while i < args.n {\n        if args.dst.length() >= 4 {\n            args.dst.write_u32le_fast!(a: i)\n        } else {\n            args.dst.write_u8?(a: 0xEE)\n        }\n        i ~mod+= 1\n    }\n    this.%s = i", st)
 	}
 	s := &scen{coro: true, features: []string{"coroutine", "write", "short-write"}}
 	s.fields = []string{st + " : base.u32"}
 	s.methods = []string{
-		fmt.Sprintf("pub func obj.%s?(dst: base.io_writer, n: base.u32) {\n    var i : base.u32\n%s\n}", m, body),
+		fmt.Sprintf("pub func obj.%s?(dst: base.io_writer, n: base.u32) {\n    var i : base.u32\n    var j : base.u32\n%s\n}", m, body),
 		fmt.Sprintf("pub func obj.%s() base.u32 {\n    return this.%s\n}", g.n("getpos"), st),
 	}
 	s.getters = []string{g.n("getpos")}
